@@ -32,7 +32,8 @@ type ctxConn struct {
 	mu       sync.Mutex
 	cond     *sync.Cond
 	data     []byte
-	deadline time.Time
+	deadline time.Time // read deadline
+	wdeadline time.Time // write deadline (SetDeadline sets both, as on a real net.Conn)
 	events   []string
 	closed   bool
 	onDrain  func() // called (once, inside Read) when the supplied bytes have all been handed out
@@ -97,7 +98,7 @@ func (c *ctxConn) Write(b []byte) (int, error) {
 		if c.closed {
 			return 0, net.ErrClosed
 		}
-		if !c.deadline.IsZero() && !time.Now().Before(c.deadline) {
+		if !c.wdeadline.IsZero() && !time.Now().Before(c.wdeadline) {
 			return 0, os.ErrDeadlineExceeded
 		}
 		if !c.blockW {
@@ -119,6 +120,12 @@ func (c *ctxConn) LocalAddr() net.Addr  { return &net.TCPAddr{} }
 func (c *ctxConn) RemoteAddr() net.Addr { return &net.TCPAddr{} }
 func (c *ctxConn) SetDeadline(t time.Time) error {
 	c.mu.Lock()
+	c.wdeadline = t
+	c.mu.Unlock()
+	return c.SetReadDeadline(t)
+}
+func (c *ctxConn) SetReadDeadline(t time.Time) error {
+	c.mu.Lock()
 	c.deadline = t
 	if t.IsZero() {
 		c.event("clear")
@@ -129,8 +136,13 @@ func (c *ctxConn) SetDeadline(t time.Time) error {
 	c.mu.Unlock()
 	return nil
 }
-func (c *ctxConn) SetReadDeadline(t time.Time) error  { return c.SetDeadline(t) }
-func (c *ctxConn) SetWriteDeadline(t time.Time) error { return nil }
+func (c *ctxConn) SetWriteDeadline(t time.Time) error {
+	c.mu.Lock()
+	c.wdeadline = t
+	c.cond.Broadcast()
+	c.mu.Unlock()
+	return nil
+}
 
 func genC10(env *core.Env, emit func(core.Case)) {
 	r := env.Rng
@@ -139,7 +151,16 @@ func genC10(env *core.Env, emit func(core.Case)) {
 	hello := h.Record(0x0301)
 	reps := env.Pick(120, 400)
 	orderings := []string{"prebuffered-cancel-after-return", "late-hello-cancel-after-return", "cancel-before-hello", "cancel-concurrent-with-hello", "cancel-after-return-then-io", "never-cancelled",
-		"cancel-when-hello-fully-read", "cancel-before-hello-peer-not-reading", "cancel-mid-hello-peer-not-reading"}
+		"cancel-when-hello-fully-read", "cancel-before-hello-peer-not-reading", "cancel-mid-hello-peer-not-reading",
+		"cancel-after-return-then-retry-io"}
+	// an accepted ECH hello and its retry, for the ordering that goes through a HelloRetryRequest after the return
+	rkey := gen.NewKey(r, 7, "public.example", gen.AllSuites)
+	rplan := gen.Plan(r, gen.PlanOpts{NOuterOpaque: 1, NInnerOpaque: 1, MaxExtLen: 16, Padding: 4, SIDLen: 32, RefMask: 1, MarkerPos: 1, InnerName: "inner.example", ALPN: []string{"h2"}, PublicName: "public.example"})
+	rs1 := gen.Seal(rplan.OuterBase, 1, rkey, gen.AllSuites[0], rplan.Enc.Body(), nil, 0x0301)
+	re2 := *rplan.Enc
+	re2.Random = gen.RandBytes(r, 32)
+	rs2 := gen.Seal(rplan.OuterBase, 1, rkey, gen.AllSuites[0], re2.Body(), rs1.Sender, 0x0303)
+	rhrr := gen.ServerHelloRecord(r, true, rplan.OuterBase.SID)
 	defer runtime.GOMAXPROCS(runtime.GOMAXPROCS(0))
 	idx := 0
 	stuckCount := 0
@@ -167,6 +188,8 @@ func genC10(env *core.Env, emit func(core.Case)) {
 				switch ord {
 				case "prebuffered-cancel-after-return", "cancel-after-return-then-io", "never-cancelled":
 					c.Supply(hello)
+				case "cancel-after-return-then-retry-io":
+					c.Supply(rs1.Rec)
 				case "late-hello-cancel-after-return":
 					go func() { time.Sleep(time.Duration(rep%5) * 100 * time.Microsecond); c.Supply(hello) }()
 				case "cancel-before-hello":
@@ -208,6 +231,8 @@ func genC10(env *core.Env, emit func(core.Case)) {
 						c.Close()
 						<-done
 					}
+				} else if ord == "cancel-after-return-then-retry-io" {
+					conn, err = ech.NewConn(ctx, c, ech.WithKeys(echKeys(rkey)))
 				} else {
 					conn, err = ech.NewConn(ctx, c, ech.WithKeys(nil))
 				}
@@ -234,6 +259,27 @@ func genC10(env *core.Env, emit func(core.Case)) {
 						ioErr = "Read after a successful NewConn failed: " + rerr.Error()
 					}
 				}
+				if err == nil && ord == "cancel-after-return-then-retry-io" {
+					// the handshake goes on through a HelloRetryRequest long after the NewConn context ended:
+					// the retried hello is read without any involvement of that context
+					buf := make([]byte, 70000)
+					if !conn.ECHAccepted() {
+						ioErr = "harness: the ECH hello of the retry ordering was not accepted"
+					} else if _, rerr := conn.Read(buf); rerr != nil {
+						ioErr = "Read of the first inner hello failed: " + rerr.Error()
+					} else if _, werr := conn.Write(rhrr); werr != nil {
+						ioErr = "Write of the HelloRetryRequest failed: " + werr.Error()
+					} else {
+						c.mu.Lock()
+						c.data = append(c.data, rs2.Rec...)
+						c.cond.Broadcast()
+						c.mu.Unlock()
+						if n, rerr := conn.Read(buf); rerr != nil || n == 0 {
+							ioErr = fmt.Sprintf("Read of the retried hello after the NewConn context had ended: n=%d err=%v", n, rerr)
+						}
+					}
+					time.Sleep(200 * time.Microsecond)
+				}
 				cancel()
 				c.mu.Lock()
 				events := append([]string{}, c.events...)
@@ -251,6 +297,16 @@ func genC10(env *core.Env, emit func(core.Case)) {
 				}
 				if w == "" && err == nil && !dl.IsZero() {
 					w = "a deadline set on behalf of the NewConn context is still in force after a successful return"
+				}
+				if w == "" && err == nil && ord == "cancel-after-return-then-retry-io" {
+					afterOK = false
+					for _, e := range events {
+						if e == "ret-ok" {
+							afterOK = true
+						} else if afterOK && (e == "fire" || e == "clear") {
+							w = "a deadline was set or cleared on the transport on behalf of the NewConn context while the retried hello was read"
+						}
+					}
 				}
 				if w == "" && ioErr != "" {
 					w = ioErr
